@@ -35,7 +35,9 @@ META = {
             "sendAccept, control connection severed on either side / kicked / shut down / endpoint closed by the "
             "application, then the application drains Accept) run against a real Server and Endpoint: Accept "
             "returns, every accepted connection's pending Read, later Read and Write return, Endpoint.Close "
-            "returns, every front connection is closed, nothing is left; also in the side modes. endpointClient.Close "
+            "returns, every front connection is closed, nothing is left; also in the side modes, and there also with an "
+            "application-supplied websocket dialer and a proxy that never answers the side upgrade (the side handler's "
+            "dial is bounded by a deadline of its own: read off sideConn, theorem, unbounded variant refuted). endpointClient.Close "
             "(kick, ServeBackName's defer) reaches c.conn.Close() within its time-out for {hint first | not} x {peer "
             "answers | silent}: the blocking points of transport.shutdown are read off the source with the obligation "
             "that each has an arm on the caller's context; a bare receive on serveDone is kept as a refuted "
@@ -184,9 +186,12 @@ def epb_oracle(c, out):
     fc = c.get("front_closed") or []
     nopen = len([x for x in fc if not x])
     rs, ls = c.get("read_stuck") or [], c.get("later_stuck") or []
-    how = "scenario '%s' with %d front connections (%d dial handlers parked in sendAccept when the control " \
+    where = "parked in sendAccept"
+    if c.get("mode") == "siding-stalled":
+        where = "inside their side dial (application-supplied websocket dialer, upgrade never answered)"
+    how = "scenario '%s' with %d front connections (%d dial handlers %s when the control " \
           "connection went; %d connections handed out by Accept)" % (c["fault"], c.get("fronts", 0),
-                                                                     c.get("parked", 0), c.get("accepted", 0))
+                                                                     c.get("parked", 0), where, c.get("accepted", 0))
     side = bool(c.get("mode"))
     if c.get("accept_end") == "stuck":
         out.append(("accept-stuck", "Endpoint.Accept did not return after the tunnel was gone; " + how))
@@ -219,6 +224,8 @@ def epb_oracle(c, out):
                         % (nopen, len(fc), how)))
     else:
         want = max(0, c.get("fronts", 0) - BACKLOG)
+        if c["mode"] == "siding-stalled":        # every dial is in flight (inside the side dial)
+            want = c.get("fronts", 0)
         if len(fc) - nopen < want:
             out.append(("front-not-closed", "%s mode: only %d of the %d front connections whose dial was in flight "
                         "were closed by the proxy %s ms after the control connection went; %s"
@@ -261,11 +268,17 @@ def run(ck):
         nepb = int(os.environ.get("VERIF_C04_EPB", 5 if not ck.thorough else 80))
         # the accept-backlog scenarios in the side modes run in a process of their own, next to the main run
         # (on a tree that orphans side connections each of them waits out two observation bounds)
+        # ("siding-stalled": an application-supplied websocket dialer without a handshake time-out, side dials
+        #  reaching a listener that accepts the TCP connection and never answers the upgrade; the handlers'
+        #  own 5 s bound is what the scenario waits for)
         side_script = [{"stream": "epb", "fault": f, "conns": k, "mode": m}
-                       for f, k, m in ([("sever-endpoint", 13, "siding")] if not ck.thorough else
+                       for f, k, m in ([("sever-endpoint", 13, "siding"), ("kick", 3, "siding-stalled")]
+                                       if not ck.thorough else
                                        [("sever-endpoint", 13, "siding"), ("kick", 24, "sidingaddr"),
                                         ("shutdown", 15, "siding"), ("sever-server", 31, "sidingaddr"),
-                                        ("close-endpoint", 12, "siding"), ("kick", 7, "siding")])]
+                                        ("close-endpoint", 12, "siding"), ("kick", 7, "siding"),
+                                        ("sever-endpoint", 3, "siding-stalled"), ("shutdown", 2, "siding-stalled"),
+                                        ("sever-server", 4, "siding-stalled")])]
         from concurrent.futures import ThreadPoolExecutor
         with ThreadPoolExecutor(max_workers=2) as ex:
             main_run = ex.submit(vlib.sh2, [binp, "-seed", str(ck.seed), "-n", str(n), "-e2e", str(ne),
